@@ -507,7 +507,6 @@ fn run(ctx: &Ctx) -> Part {
     let mut part = Part::new(ctx, acc, bounds, true, t0.elapsed().as_secs_f64());
     part.acc.n_outcomes = part.acc.states;
     part.require("transitions_with_consumed_fault", 100);
-    part.require("states_with_cache_cleared_after_fault", 1);
     part
 }
 
